@@ -12,7 +12,7 @@ ID = "C03"
 BUDGET = {"quick": (4, 500), "thorough": (16, 5000)}
 TECHNIQUE = "property-based differential testing (Hypothesis): fill.numpy vs per-row fill of a twin tree"
 RULE = (
-    "Generated: a tree spec with >= 1 quantity-bearing node (no Count transforms, no Bag range N2), a column batch of "
+    "Generated: a tree spec with >= 1 quantity-bearing node (no Bag range N2; Count transforms only with dict / record-array input), a column batch of "
     "0..16 rows over the tree's critical-value alphabets (edges +-ulps, NaN, +-inf), an input representation (dict of "
     "arrays / numpy record array / pandas DataFrame with string-expression quantities), weights (omitted / positive "
     "scalar / zero scalar / non-negative array incl. zeros) and cut points splitting the batch into 1..4 successive "
@@ -74,7 +74,7 @@ def strategy(tier):
                 cat_cols=("b",),
             )
         else:
-            opts = gen.TreeOpts(max_depth=4 if thorough else 3, bag_ranges=("N", "S"), cat_cols=("s", "s", "b"))
+            opts = gen.TreeOpts(max_depth=4 if thorough else 3, bag_ranges=("N", "S"), cat_cols=("s", "s", "b"), count_transforms=True)
         spec, focus = draw(gen.specs_and_focus(opts))
         if not _qbearing(spec):
             spec = {"k": "Branch", "values": [{"k": "Sum", "q": {"t": "num", "col": "z", "fl": opts.flavours[0]}}, spec]}
